@@ -826,6 +826,7 @@ def run_chroot(case) -> CaseResult:
 
 NAMES = [b'a', b'b', b'c', b'd', b'f', b'l', b'm']
 ODD = [b'..', b'..', b'..', b'.', b'', b'outside', b'canary.txt', b'root',
+       b'root-private',
        b'cwd', b'l2', b'sub', b'x' * 300, b'\xff\xfe', b'a b', b'...']
 WHOLE = [b'', b'/', b'.', b'..', b'//', b'/..', b'/../..', b'../..',
          SENTINEL + b'/x', SENTINEL, b'/a/b/c', b'a/f', b'/a/../../f',
@@ -860,7 +861,8 @@ def link_targets():
     tail = pick([b'outside/canary.txt', b'outside', b'canary.txt',
                             b'x', b'f', b'a', b'a/f', b'', b'..',
                             b'l2/outside/sub', b'root/f', b'm/../../x',
-                            b'l', b'm'])
+                            b'l', b'm', b'root-private',
+                            b'root-private/canary.txt', b'root-private/new'])
     rel = st.tuples(ups, tail).map(lambda t: t[0] + t[1])
     return st.one_of(rel, rel, paths())
 
